@@ -1,0 +1,20 @@
+//go:build verif
+
+package cmd
+
+import "ti/base"
+
+// VerifIsSuggest exposes the completion filter for the verification harness.
+func VerifIsSuggest(targetT base.T, sig base.Sig) bool {
+	return isSuggest(targetT, sig)
+}
+
+// VerifIsSuggestForKernelOrObjectClass exposes the lower-case receiver rule.
+func VerifIsSuggestForKernelOrObjectClass(targetT base.T, sigClass string) bool {
+	return isSuggestForKernelOrObjectClass(targetT, sigClass)
+}
+
+// VerifObjectClassAndIsStatic exposes calculateObjectClassAndIsStatic.
+func VerifObjectClassAndIsStatic(targetT base.T) (string, bool) {
+	return calculateObjectClassAndIsStatic(targetT)
+}
